@@ -13,10 +13,10 @@ import NemoVerif.Generated.LlmFlowsV1
     {"m":"C16.interp","input":[irail,…],"output":[irail,…],"opts":null|[cats],"user":s,"bot":null|s,"llm_text":s,"refusal":s}
                                                           → RailsInterp.drive: the loop of `generate_events` around the interpreter model
                                                             (V1Interp) on the GENERATED llm_flows.co program + rail sub-flows of the shipped
-                                                            shapes; irail = {"name","action","kind":"check"|"append"|"replace","needles":[…]|"text":s}
+                                                            shapes; irail = {"name","action","kind":"check"|"append"|"prepend"|"replace","needles":[…]|"text":s}
   Event encoding = harness/impl/pipeline_opts.py::abstract_plog.
   A rail of the request is a rule table [[needle, verdict], …] (first rule whose needle occurs in the text decides,
-  default accept), verdict = ["accept"] | ["reject"] | ["fault"] | ["append", t] | ["replace", t].
+  default accept), verdict = ["accept"] | ["reject"] | ["fault"] | ["append", t] | ["prepend", t] | ["replace", t].
 -/
 namespace NemoVerif.Drive.C16
 open Lean NemoVerif NemoVerif.Drive NemoVerif.GenLog NemoVerif.OptGuard NemoVerif.PipelineOpts
@@ -101,6 +101,7 @@ def verdictOfJson (j : Json) : Except String (String → Verdict) := do
   | "reject" => pure fun _ => .reject
   | "fault" => pure fun _ => .fault
   | "append" => let t ← strAt a 1; pure fun s => .rewrite (s ++ t)
+  | "prepend" => let t ← strAt a 1; pure fun s => .rewrite (t ++ s)
   | "replace" => let t ← strAt a 1; pure fun _ => .rewrite t
   | s => throw s!"bad verdict {s}"
 
@@ -197,6 +198,7 @@ def irailOfJson (j : Json) : Except String IRail := do
     let ns ← (← (← j.getObjVal? "needles").getArr?).toList.mapM fun e => e.getStr?
     pure { name := name, action := action, kind := .check fun t => !(ns.any fun n => isInfixL n.toList t.toList) }
   | some "append" => let t ← (← j.getObjVal? "text").getStr?; pure { name := name, action := action, kind := .rewrite fun s => s ++ t }
+  | some "prepend" => let t ← (← j.getObjVal? "text").getStr?; pure { name := name, action := action, kind := .rewrite fun s => t ++ s }
   | some "replace" => let t ← (← j.getObjVal? "text").getStr?; pure { name := name, action := action, kind := .rewrite fun _ => t }
   | _ => throw "bad irail kind"
 
